@@ -546,3 +546,18 @@ package v1
 //@   loop 1
 //@     invariant 0 <= idx && idx <= len(extTmp) && len(out.Extensions) == len(extTmp) && fresh(out.Extensions) && len(extTmp) == len(p.Extensions)
 //@     invariant @C08 forall k in [0, idx) :: out.Extensions[k].ExtensionConfig == extTmp[k] && out.Extensions[k].ExtensionProfile.Override == p.Extensions[k].Override && out.Extensions[k].ExtensionProfile.Optional == p.Extensions[k].Optional
+
+// ---- the version-1 parser against the Configurator interface contract (C18, C20) and as the link between the file text
+// and initCertificate / initProfile (C03-C09): what it returns without an error is exactly what initCertificate
+// (for a file with a subject) or initProfile (for a file with a name) built from the structure yaml filled in, and an
+// error of the schema validator, of yaml or of either init function is returned, never dropped.
+// getFileType has no loop and no contract: it is verified inline.
+//@ func (V1Configurator).ParseConfiguration returns (res, err)
+//@   props C18 C20 C03 C06 C08
+//@   ensures @C18,C20 err != nil ==> res == nil
+//@   ensures @C18,C20 err == nil ==> (typeis(res, "*gopki/generator/config.CertificateContent") || typeis(res, "*gopki/generator/config.CertificateProfile")) && unboxRef(res) != 0
+//@   ensures @C20,C03,C06 called("gopki/generator/config/v1.initCertificate", 1) && callres("gopki/generator/config/v1.initCertificate", 1, 1) != nil ==> err != nil
+//@   ensures @C20,C08 called("gopki/generator/config/v1.initProfile", 1) && callres("gopki/generator/config/v1.initProfile", 1, 1) != nil ==> err != nil
+//@   ensures @C03,C06 err == nil && typeis(res, "*gopki/generator/config.CertificateContent") ==> called("gopki/generator/config/v1.initCertificate", 1) && unboxRef(res) == callres("gopki/generator/config/v1.initCertificate", 1, 0)
+//@   ensures @C08 err == nil && typeis(res, "*gopki/generator/config.CertificateProfile") ==> called("gopki/generator/config/v1.initProfile", 1) && unboxRef(res) == callres("gopki/generator/config/v1.initProfile", 1, 0)
+//@   ensures @C20 called("(*github.com/santhosh-tekuri/jsonschema.Schema).Validate", 1) && callres("(*github.com/santhosh-tekuri/jsonschema.Schema).Validate", 1, 0) != nil ==> err != nil
